@@ -30,6 +30,8 @@ pub struct AbsOp {
     pub labels: Vec<u32>,
     /// resolved block type "(params)->(results)" or ""
     pub bt: String,
+    /// type index named by the block type, or -1
+    pub bt_type: i32,
     /// absolute offset of the first byte of the operator in the binary
     pub at: u32,
     /// size in bytes
@@ -172,6 +174,8 @@ pub struct AbsModule {
     pub code_at: i32,
     pub code_count_len: u32,
     pub size: u32,
+    /// type indices used by some function signature, call_indirect or block type
+    pub used_types: Vec<u32>,
 }
 
 pub fn valty(t: &wp::ValType) -> String {
@@ -337,6 +341,9 @@ impl Field for wp::MemArg {
 }
 impl Field for wp::BlockType {
     fn rec(&self, _name: &str, op: &mut AbsOp, _imm: &mut Vec<String>, cx: &OpCx) {
+        if let wp::BlockType::FuncType(i) = self {
+            op.bt_type = *i as i32;
+        }
         op.bt = match self {
             wp::BlockType::Empty => "()->()".into(),
             wp::BlockType::Type(t) => format!("()->({})", valty(t)),
@@ -384,7 +391,7 @@ impl Field for wp::TryTable {
 macro_rules! project_op {
     ($( @$proposal:ident $op:ident $({ $($arg:ident: $argty:ty),* })? => $visit:ident)*) => {
         pub fn project_op(op: &Operator, cx: &OpCx) -> AbsOp {
-            let mut a = AbsOp { local: -1, ..Default::default() };
+            let mut a = AbsOp { local: -1, bt_type: -1, ..Default::default() };
             #[allow(unused_mut)]
             let mut imm: Vec<String> = vec![];
             match op {
@@ -617,6 +624,24 @@ pub fn project(bytes: &[u8]) -> anyhow::Result<AbsModule> {
             _ => {}
         }
     }
+    let mut used: Vec<u32> = vec![];
+    for f in &m.funcs {
+        if !used.contains(&f.ty) {
+            used.push(f.ty);
+        }
+        for op in &f.ops {
+            for r in &op.refs {
+                if r.0 == "type" && !used.contains(&r.1) {
+                    used.push(r.1);
+                }
+            }
+            if op.bt_type >= 0 && !used.contains(&(op.bt_type as u32)) {
+                used.push(op.bt_type as u32);
+            }
+        }
+    }
+    used.sort();
+    m.used_types = used;
     Ok(m)
 }
 
